@@ -1,15 +1,43 @@
 (* Properties/C10.v — the build_file contract, about Model/Builder.v m_build_file
-   (FileBuilder.build_file_with_comparison + _build_file + _rebuild_file).
-   Proofs in Proofs/BuildFileLaws.v.  Label: partial — the statements cover the
-   call itself; "parent directories this call created are removed ... by the end
-   of the build" is covered by T2/T3 and by the C03/C12 theorems. *)
+   (FileBuilder.build_file_with_comparison + _build_file + _rebuild_file).  Proofs in
+   Proofs/BuildFileLaws.v (the call itself) and Proofs/CommitDirs*.v (the end of the build):
+   C10_state_after_a_committed_build - after a build that commits (any program, fault-free,
+   condition A of C02), the cache file holds the new cache; a path built by this build is a
+   regular file iff its record is not a failure (failed targets leave no file); a path served
+   from the old cache holds exactly the pre-state node; old outputs the new cache does not
+   hold are gone; every other path is untouched; every recorded directory exists, every
+   pre-existing directory is still there unless the old cache had recorded it;
+   C10_parents_of_failed_targets_removed_when_empty.  Label: partial — not proved: that no
+   empty unrecorded directory made by the build survives (third alternative of clause b1:
+   true on all computed histories), and that the file holds what its function wrote (C13
+   covers the recorded comparison result). *)
 From Coq Require Import List String Bool.
 From FB.Base Require Import PyVal Fs.
 From FB.Gen Require Import JsonUtilGen.
 From FB.Spec Require Import JsonSpec.
-From FB.Model Require Import Types Monad BuildDirs SimpleOps Builder.
-From FB.Proofs Require Import BuildFileLaws.
+From FB.Spec Require Import Prog.
+From FB.Model Require Import Types Monad BuildDirs SimpleOps Builder Persist Build Run Frame.
+From FB.Proofs Require Import BuildFileLaws FrameLaws RollbackLaws CommitDirsMain.
 Import ListNotations.
+
+Theorem C10_state_after_a_committed_build : forall cf nm vers svers root w w' v (P : path -> Prop),
+  w_faults w = [] ->
+  sanitize vers = Some svers ->
+  AllTargets P root ->
+  fs_wf (w_fs w) ->
+  (forall a t, (P t \/ t = cf \/ In t (cache_targets (old_cache_of (w_fs w) cf nm svers))) ->
+     below a t = true -> (forall f, lookup (w_fs w) a <> Some (NFile f)) /\ ~ P a) ->
+  (forall d, In d (c_dirs (old_cache_of (w_fs w) cf nm svers)) -> path_ok d = true) ->
+  run_build cf nm vers root w = (w', Done (inl v)) ->
+  CommitPost (w_fs w) (old_cache_of (w_fs w) cf nm svers) cf w'.
+Proof. exact commit_leaves. Qed.
+
+Theorem C10_parents_of_failed_targets_removed_when_empty : forall fs0 old cf w',
+  CommitPost fs0 old cf w' ->
+  forall d, In d (bd_err_created (w_bd w')) -> ~ In d (c_dirs (w_new w')) ->
+    lookup (w_fs w') d = Some NDir ->
+    lookup fs0 d = Some NDir \/ exists n, lookup (w_fs w') (n :: d) <> None.
+Proof. exact failed_parents_removed_when_empty. Qed.
 
 (* non-JSON arguments are rejected before anything happens; no record is made *)
 Theorem C10_type_error_first : forall p c f a kw fn w,
